@@ -615,6 +615,8 @@ def evaluate__sort(self: XPathFunction, context: ta.ContextType = None) -> ta.Va
 
     if len(self) == 3:
         func = self.get_argument(context, index=2, required=True, cls=XPathFunction)
+        if func.arity != 1:
+            raise self.error('XPTY0004', "function arity must be 1")
         key_function = get_key_function(
             collation, key_func=lambda x: func(x, context=context), token=self
         )
